@@ -12,6 +12,8 @@ Definition sym_verify (k : jwk) (t : token) : bool := Nat.eqb (k_mat k) (t_signe
 Inductive mstep :=
 | MArrive (tok : token)   (* start VerifySignature in a new goroutine; tid = arrival order *)
 | MCancel (t : nat)       (* cancel caller t's context (possibly before it arrives) *)
+| MExpire (t : nat)       (* caller t's context has a deadline and the script lets it pass;
+                             for the machine this is Cancel t: the caller's own context is dead *)
 | MRelease (r : resp).    (* let the gated download (if any) return r *)
 
 Inductive input :=
@@ -34,7 +36,7 @@ Inductive observed := OScript (snaps : list snap) | OPanic | ORace (clean : bool
 Definition events_of (w : world) (m : mstep) : list event :=
   match m with
   | MArrive tok => let t := List.length (w_callers w) in [Arrive tok; Run t; Run t; RunCtx t]
-  | MCancel t => [Cancel t; RunCtx t]
+  | MCancel t | MExpire t => [Cancel t; RunCtx t]
   | MRelease r =>
       match w_inflight w with
       | Some g => FetchReturns g r :: Commit g :: map Run (seq 0 (List.length (w_callers w)))
@@ -114,7 +116,7 @@ Definition tok_at (g : truth) (t : nat) : token := nth t (gt_toks g) (mkTok "" "
 
 Definition check_step (g : truth) (p s : snap) (m : mstep) : bool * truth :=
   let toks' := match m with MArrive tok => gt_toks g ++ [tok] | _ => gt_toks g end in
-  let canc' := match m with MCancel t => t :: gt_cancelled g | _ => gt_cancelled g end in
+  let canc' := match m with MCancel t | MExpire t => t :: gt_cancelled g | _ => gt_cancelled g end in
   let deliv' := if s_delivered s then S (gt_deliv g) else gt_deliv g in
   let good' := match m with
                | MRelease r => if s_delivered s then match parse r with Some ks => ks | None => gt_good g end
@@ -148,7 +150,7 @@ Definition check_step (g : truth) (p s : snap) (m : mstep) : bool * truth :=
         (negb (unique_match (gt_good g) tok) || (is_ok (stat_at s t) && Nat.eqb (s_req s) (s_req p)))
           (* a key of the last good download still verifies, without a new download *)
         && (negb (is_ok (stat_at s t)) || signer_in (gt_good g) tok)
-    | MCancel _ => true
+    | MCancel _ | MExpire _ => true
     | MRelease r =>
         if s_delivered s then
           forallb (fun t => negb (is_pending (stat_at p t)) || negb (is_pending (stat_at s t))) tids
